@@ -247,6 +247,7 @@ func retPlaceholder(toks []string, static []string) string {
 
 func init() {
 	execs["ret"] = execRet
+	execs["retseq"] = execRetSeq
 	gens["C14"] = genRet
 }
 
@@ -647,6 +648,228 @@ func genRet(r *rand.Rand, tier string, emit Emit) {
 				toks[j] = retTok(r, st[j], true)
 			}
 			retEmitOp(emit, shape, toks)
+		}
+	}
+	genRetSeq(r, tier, emit)
+}
+
+// ---------------------------------------------------------------- retseq: several handlers, one chain
+
+func retSplitBar(fs []string) [][]string {
+	out := [][]string{{}}
+	for _, f := range fs {
+		if f == "|" {
+			out = append(out, []string{})
+			continue
+		}
+		out[len(out)-1] = append(out[len(out)-1], f)
+	}
+	return out
+}
+
+// execRetSeq: one Flame per session; every `Q <g> step | step | …` line registers a fresh route
+// whose chain is exactly these handlers (the first g of them as group handlers), each preceded
+// by a counting handler, and serves one request.  Steps: see lean/Flamego/Driver/Ret.lean.
+func execRetSeq(args []string, lines [][]string) []string {
+	if len(args) != 1 {
+		panic("retseq: want 1 session arg")
+	}
+	method := args[0]
+	f := flamego.NewWithLogger(io.Discard)
+	outs := []string{"new"}
+	for i, l := range lines {
+		if len(l) < 3 || l[0] != "Q" {
+			outs = append(outs, "bad-op")
+			continue
+		}
+		g := atoi(l[1])
+		ran := 0
+		count := func() { ran++ }
+		var hs [][]flamego.Handler // per step: counter + handler
+		good := true
+		func() {
+			defer func() {
+				if recover() != nil {
+					good = false
+				}
+			}()
+			for _, st := range retSplitBar(l[2:]) {
+				if len(st) == 0 {
+					good = false
+					return
+				}
+				var h flamego.Handler
+				switch {
+				case st[0] == "n" && len(st) == 1:
+					h = func() {}
+				case st[0] == "mr" && len(st) == 3:
+					rh := retCustom(atoi(st[1]), unhx(st[2]))
+					h = func(c flamego.Context) { c.Map(rh) }
+				case st[0] == "ma" && len(st) == 3:
+					rh := retCustom(atoi(st[1]), unhx(st[2]))
+					h = func() { f.Map(rh) }
+				case st[0] == "r" && len(st) >= 3:
+					def, ok := retShapes[st[1]]
+					toks := st[3:]
+					if !ok || len(toks) != len(def.static) {
+						good = false
+						return
+					}
+					sess := &retSess{cur: make([]interface{}, len(toks))}
+					for k, t := range toks {
+						fs := strings.Split(t, ":")
+						want := retStaticHead[def.static[k]]
+						if fs[0] != want && !(want == "e" && fs[0] == "ep") {
+							good = false
+							return
+						}
+						sess.cur[k] = retToGo(fs, def.static[k])
+					}
+					h = def.build(sess)
+				default:
+					good = false
+					return
+				}
+				hs = append(hs, []flamego.Handler{count, h})
+			}
+		}()
+		if !good || g < 0 || g > len(hs) {
+			outs = append(outs, "bad-op")
+			continue
+		}
+		var grp, rt []flamego.Handler
+		for k, pair := range hs {
+			if k < g {
+				grp = append(grp, pair...)
+			} else {
+				rt = append(rt, pair...)
+			}
+		}
+		path := fmt.Sprintf("/q%d", i)
+		if g > 0 {
+			f.Group(fmt.Sprintf("/g%d", i), func() { f.Route(method, "/q", rt) }, grp...)
+			path = fmt.Sprintf("/g%d/q", i)
+		} else {
+			f.Route(method, path, rt)
+		}
+		spy := &retSpy{ResponseRecorder: httptest.NewRecorder()}
+		req, err := http.NewRequest(method, path, nil)
+		if err != nil {
+			panic(err)
+		}
+		panicked := 0
+		func() {
+			defer func() {
+				if recover() != nil {
+					panicked = 1
+				}
+			}()
+			f.ServeHTTP(spy, req)
+		}()
+		st := 0
+		if len(spy.codes) > 0 {
+			st = spy.codes[0]
+		}
+		outs = append(outs, fmt.Sprintf("%d %s %d %d", st, hx(spy.Body.String()), ran, panicked))
+	}
+	return outs
+}
+
+// a value of the static type that the table renders as nothing ("" when there is none)
+func retQuietTok(r *rand.Rand, st string) string {
+	switch st {
+	case "S", "MS":
+		return "s:-"
+	case "B":
+		return []string{"b:nil", "b:-"}[r.Intn(2)]
+	case "E", "A":
+		return "a:nil"
+	case "PS":
+		return []string{"p:nil", "p:s:-"}[r.Intn(2)]
+	case "PB", "PPS":
+		return "p:nil"
+	case "O64", "OB":
+		return "o:1"
+	}
+	return ""
+}
+
+func retSeqStep(r *rand.Rand) string {
+	switch k := r.Intn(20); {
+	case k < 2:
+		return "n"
+	case k < 5:
+		return fmt.Sprintf("mr %d %s", []int{0, 0, 202, 299, 404}[r.Intn(5)], hx(retBody(r)))
+	case k < 7:
+		return fmt.Sprintf("ma %d %s", []int{0, 0, 203, 298}[r.Intn(4)], hx(retBody(r)))
+	}
+	shape := retShapeOrder[r.Intn(len(retShapeOrder))]
+	st := retShapes[shape].static
+	toks := make([]string, len(st))
+	quiet := r.Intn(10) < 7
+	for j := range st {
+		toks[j] = ""
+		if quiet {
+			toks[j] = retQuietTok(r, st[j])
+		}
+		if toks[j] == "" {
+			toks[j] = retTok(r, st[j], false)
+		}
+	}
+	ph := retPlaceholder(toks, st)
+	return strings.TrimSpace(fmt.Sprintf("r %s %s %s", shape, ph, strings.Join(toks, " ")))
+}
+
+func genRetSeq(r *rand.Rand, tier string, emit Emit) {
+	// 1. exhaustive: every chain of up to `depth` handlers over this alphabet — returns that write
+	//    nothing (rendered by the table), returns that write, a request-scope and an app-scope
+	//    Map of a writing custom handler and of a silent one — so the Map sits at every position
+	//    relative to the returning handlers; then a second request on the same Flame
+	alphabet := []string{
+		"n",
+		"r e - a:nil",
+		"r s - s:-",
+		"r v -",
+		"r s - s:" + hx("hi"),
+		"r ie - i:404 a:nil",
+		"mr 299 " + hx("R"),
+		"mr 0 -",
+		"ma 298 " + hx("A"),
+	}
+	depth := 4
+	if tier == "thorough" {
+		depth = 5
+	}
+	var rec func(seq []string)
+	rec = func(seq []string) {
+		if len(seq) > 0 {
+			emit("NEW retseq GET")
+			emit("Q %d %s", len(seq)%3%(len(seq)+1), strings.Join(seq, " | "))
+			emit("Q 0 r s - s:%s | n", hx("2nd"))
+		}
+		if len(seq) == depth {
+			return
+		}
+		for _, a := range alphabet {
+			rec(append(seq[:len(seq):len(seq)], a))
+		}
+	}
+	rec(nil)
+	// 2. random: sessions of several requests, chains of 1..8 handlers of every shape
+	n := 1500
+	if tier == "thorough" {
+		n = 60000
+	}
+	methods := []string{"GET", "GET", "POST", "HEAD"}
+	for i := 0; i < n; i++ {
+		emit("NEW retseq %s", methods[r.Intn(len(methods))])
+		for q := 1 + r.Intn(4); q > 0; q-- {
+			k := 1 + r.Intn(8)
+			steps := make([]string, k)
+			for j := range steps {
+				steps[j] = retSeqStep(r)
+			}
+			emit("Q %d %s", r.Intn(k+1), strings.Join(steps, " | "))
 		}
 	}
 }
